@@ -9,7 +9,7 @@
 From Coq Require Import Reals List ZArith.
 Import ListNotations.
 From Coquelicot Require Import Coquelicot.
-From MG Require Import Model.RealOps Gen.VjpScalar Proofs.VjpP1 Proofs.VjpP2 Base.EngCore Model.OpsExact Proofs.OpsExactP Model.VecOps Proofs.VecP.
+From MG Require Import Model.RealOps Gen.VjpScalar Proofs.VjpP1 Proofs.VjpP2 Base.EngCore Model.OpsExact Proofs.OpsExactP Model.VecOps Proofs.VecP Proofs.VecP2.
 Open Scope R_scope.
 
 Theorem C02_Add_vjp_0 : forall g a b, is_derive (fun x => g * Add_fwd x b) a (Add_bwd_0 g a b).
@@ -317,6 +317,31 @@ Print Assumptions C02_lane_logsoftmax_vjp.
 Theorem C02_lane_xent_vjp : forall g c y l i, (i < length l)%nat -> (y < length l)%nat -> is_derive (fun t => g * vxent c y (upd l i t)) (nth i l 0) (xent_bwd g c y l i).
 Proof. exact xent_vjp. Qed.
 Print Assumptions C02_lane_xent_vjp.
+
+(* batch normalisation of one channel (w.r.t. x, gamma and beta) and vector p-norms (ord 1, 2 and any real p <> 0) of one lane *)
+Theorem C02_lane_bn_x_vjp : forall g gamma beta eps l i, (i < length l)%nat -> length g = length l -> 0 < eps -> is_derive (fun t => dot g (vbatchnorm gamma beta eps (upd l i t))) (nth i l 0) (bn_x_bwd g gamma eps l i).
+Proof. exact bn_x_vjp. Qed.
+Print Assumptions C02_lane_bn_x_vjp.
+
+Theorem C02_lane_bn_gamma_vjp : forall g gamma beta eps l, length g = length l -> is_derive (fun t => dot g (vbatchnorm t beta eps l)) gamma (bn_gamma_bwd g eps l).
+Proof. exact bn_gamma_vjp. Qed.
+Print Assumptions C02_lane_bn_gamma_vjp.
+
+Theorem C02_lane_bn_beta_vjp : forall g gamma beta eps l, length g = length l -> is_derive (fun t => dot g (vbatchnorm gamma t eps l)) beta (bn_beta_bwd g).
+Proof. exact bn_beta_vjp. Qed.
+Print Assumptions C02_lane_bn_beta_vjp.
+
+Theorem C02_lane_norm1_vjp : forall g l i, (i < length l)%nat -> nth i l 0 <> 0 -> is_derive (fun t => g * vnorm1 (upd l i t)) (nth i l 0) (norm1_bwd g l i).
+Proof. exact norm1_vjp. Qed.
+Print Assumptions C02_lane_norm1_vjp.
+
+Theorem C02_lane_norm2_vjp : forall g l i, (i < length l)%nat -> 0 < vnorm2 l -> is_derive (fun t => g * vnorm2 (upd l i t)) (nth i l 0) (norm2_bwd g l i).
+Proof. exact norm2_vjp. Qed.
+Print Assumptions C02_lane_norm2_vjp.
+
+Theorem C02_lane_normp_vjp : forall p g l i, (i < length l)%nat -> p <> 0 -> nth i l 0 <> 0 -> is_derive (fun t => g * vnormp p (upd l i t)) (nth i l 0) (normp_bwd p g l i).
+Proof. exact normp_vjp. Qed.
+Print Assumptions C02_lane_normp_vjp.
 
 (* structural operations: the registry theorem (shared with C01) *)
 Theorem C02_registry_ops_exact :
